@@ -32,3 +32,8 @@ Definition before_save (c : ucfg) (ids tss probes : list Z) : uobs :=
   observe (saved_items c ids) (saved_tss c tss) probes.
 Definition after_load (c : ucfg) (ids tss probes : list Z) : uobs :=
   observe (loaded_items c (saved_items c ids)) (loaded_tss c (saved_tss c tss)) probes.
+
+(* the loaded components go on living: further samples (sequential buffers) arrive after the load *)
+Definition after_more (c : ucfg) (ids tss probes mids mtss : list Z) : uobs :=
+  observe (lastn (u_cap2 c) (loaded_items c (saved_items c ids) ++ mids))
+          (lastn_opt (u_q2 c) (loaded_tss c (saved_tss c tss) ++ mtss)) probes.
